@@ -23,6 +23,8 @@ func TestMC_Debug(t *testing.T) {
 		cfgs, _ = shutSchedConfigs()
 	case "C18":
 		cfgs, _ = faultSchedConfigs()
+	case "CLIENT":
+		cfgs = clientConfigs("DBG")
 	}
 	for _, c := range cfgs {
 		if only == "" || !strings.Contains(c.Name, only) {
@@ -31,12 +33,15 @@ func TestMC_Debug(t *testing.T) {
 		for i := 0; i < 4; i++ {
 			sc := c.New()
 			out := sched.RunOnce(nil, 40000, true, sc.Body)
-			w := sc.(*world)
+			w, ok := sc.(*world)
+			if !ok {
+				w = sc.(*clientWorld).world
+			}
 			msg, sig := w.Check(out)
-			fmt.Printf("%s run %d: end=%s steps=%d decisions=%d %s | %s %s\n", c.Name, i, out.End, out.Steps, len(out.Decisions), w.describe(), sig, msg)
+			fmt.Printf("%s run %d: end=%s steps=%d decisions=%d %s | %s %s\n", c.Name, i, out.End, out.Steps, len(out.Decisions), w.describe()+" obs="+strings.Join(w.obs, ","), sig, msg)
 			if os.Getenv("MC_TRACE") != "" {
 				for _, s := range out.Trace {
-					if !strings.HasPrefix(s.Kind, "atomic") {
+					if !strings.HasPrefix(s.Kind, "atomic") || os.Getenv("MC_TRACE") == "all" {
 						fmt.Printf("   T%d %s %d\n", s.T, s.Kind, s.Obj)
 					}
 				}
